@@ -147,8 +147,11 @@ impl RdbEngine {
         
         println!("RDB: Starting dump to {}", temp_path.display());
         
-        // Write to temporary file
-        self.write_snapshot(storage, &temp_path)?;
+        // Write to temporary file (a failed save leaves nothing behind)
+        if let Err(e) = self.write_snapshot(storage, &temp_path) {
+            let _ = std::fs::remove_file(&temp_path);
+            return Err(e);
+        }
         
         // Atomic rename
         std::fs::rename(&temp_path, &self.file_path)
